@@ -74,8 +74,10 @@ def _c20():
                     note="empty segment: panic or no-op allowed, an exposed empty chunk is not"))
     for n in ["c20_insert_oor_seg1_s12", "c20_remove_oor_s0", "c20_remove_oor_s12"]:
         add(n, oor=True)
+    # three operations in a row with three symbolic arguments: out of memory at 20 GB (every operation is
+    # decided on its own from every bounded valid chain, which is what the one-step argument needs)
     for n in ["c20_three_steps_s12", "c20_three_steps_s213"]:
-        add(n, thorough_only=True)
+        hs.append(H(n, tier="off", profiles=("rel", "dev"), note="beyond reach"))
     for n in ["c20_cow_split_to_in", "c20_cow_split_off_in", "c20_cow_truncate_in", "c20_cow_advance_in"]:
         hs.append(H(n, tier="quick", profiles=("dev", "rel"), note="CowBytes op, argument in range, both variants"))
     for n in ["c20_cow_split_to_oor", "c20_cow_split_off_oor", "c20_cow_truncate_oor", "c20_cow_advance_oor"]:
@@ -89,7 +91,7 @@ def _c20():
         bounds=dict(chunks="<= 3 per chain (shapes enumerated concretely: [], [2], [1,2], [2,1,3]; thorough adds [3,1], [1,1,1], [3,3,3])",
                     chunk_len="1..3 bytes, contents fully symbolic, variant (Temporary/Static) symbolic per chunk",
                     argument="symbolic over [0,total] (in-range harnesses) and (total, total+2] (out-of-range harnesses); chunk index over [0,n] / (n, n+1]",
-                    steps="one operation from every bounded valid chain (quick); truncate->split_off->advance chain (thorough)",
+                    steps="one operation from every bounded valid chain",
                     unwind="12 (8 for CowBytes-only harnesses); unwinding assertions on"),
         outside=["chains with more than 3 chunks or chunks longer than 3 bytes", "sequences longer than 3 operations (covered only by the one-step argument: every op is checked from every bounded valid state)",
                  "the real bytes::Bytes reference counting (claims about the Static variant are relative to the bytes model)"],
@@ -271,6 +273,8 @@ def mux_module_of(h):
 
 # written, but beyond reach on this machine (reason): never selected by a tier, see DESIGN §8
 OFF = {
+    "c20_three_steps_s12": "truncate -> split_off -> advance with three symbolic arguments: out of memory at 20 GB",
+    "c20_three_steps_s213": "truncate -> split_off -> advance with three symbolic arguments: out of memory at 20 GB",
     "c11_send_h3_p1": "engine imprecision: in this instance the bytes after the first of a >= 3-octet host copied into the frame are unconstrained in CBMC's model (standalone reproductions of the same copy are precise); the counterexample does not reproduce natively, so the instance cannot decide anything",
     "c11_send_h255_p1": "same engine imprecision as c11_send_h3_p1 (the 255/256 boundary of the refusal is covered by c11_send_h256_p1 and by the u8 conversion in the encoder instances of C09)",
     "c08_wd_inflight_established": "wind_down with a frame still in the source: symbolic execution not finished after 1200 s (process_message as a nested coroutine inside wind_down)",
